@@ -17,6 +17,21 @@
 VF_SECTION(w16, 16, 16, 120) {
   std::vector<int> operands = {0, 1, 2, 3, 7, 15, 0x7F, 0x80, 0xFF, 0x100, 0x7FFF, 0x8000, 0xFFFF, -1, -0x8000};
   std::vector<int> shifts = {0, 1, 2, 3, 7, 8, 15};
+  if (r.thorough()) {
+    // every int operand 2^k-1, 2^k, 2^k+1 and its negative (k = 0..32), every shift count below the width
+    for (int k = 0; k <= 32; k++)
+      for (int dlt = -1; dlt <= 1; dlt++) {
+        uint32_t u = (k < 32 ? (1u << k) : 0u) + static_cast<uint32_t>(dlt);
+        for (uint32_t x : {u, 0u - u}) {
+          int v = static_cast<int>(x);
+          bool seen = false;
+          for (int y : operands) seen = seen || y == v;
+          if (!seen) operands.push_back(v);
+        }
+      }
+    shifts.clear();
+    for (int c = 0; c < 16; c++) shifts.push_back(c);
+  }
   std::vector<uint64_t> all;
   for (uint32_t v = 0; v < 0x10000; v++) all.push_back(v);
 #define X(W, T, O)                                                            \
@@ -26,7 +41,9 @@ VF_SECTION(w16, 16, 16, 120) {
   }
   C03_W16(X)
 #undef X
-  r.bound = "6 wrapper types (le/be/re x u16/s16) x all 65536 stored values x {ctor,=,store} + 8 compound operators x 15 int operands + 2 shifts x 7 counts + 4 inc/dec";
+  r.bound = r.thorough()
+      ? vf::fmt("6 wrapper types (le/be/re x u16/s16) x all 65536 stored values x {ctor,=,store} + 8 compound operators x %zu int operands (the quick set plus every 2^k-1, 2^k, 2^k+1 and negative, k = 0..32) + 2 shifts x all 16 counts + 4 inc/dec", operands.size())
+      : "6 wrapper types (le/be/re x u16/s16) x all 65536 stored values x {ctor,=,store} + 8 compound operators x 15 int operands + 2 shifts x 7 counts + 4 inc/dec";
 }
 
 // 32-bit wrappers: lane set L9^4 + walking bits + all-distinct, operands of the exposed type.
